@@ -12,9 +12,9 @@ WEB = 'webauthn::verif_proofs::'
 ARB = 'arbitrary::verif_proofs::'
 
 ASSUMPTIONS = {
-    'A1': 'A1 serde-indexed 0.1.1: key = position + offset; emitted in declaration order; a member is skipped iff its skip_serializing_if predicate holds; decoding requires exactly the members without skip_serializing_if; duplicate or unknown index is an error (assumed contract of the derive macro; validated boundedly by the GC harnesses)',
-    'A2': 'A2 serde_derive 1.0: text-keyed fields in declaration order under their renamed keys; default / missing_field; unknown keys go to deserialize_ignored_any unless deny_unknown_fields; serde_repr maps discriminants both ways and rejects other numbers (assumed)',
-    'A3': 'A3 derived Serialize impls always announce definite lengths (assumed)',
+    'A1': 'A1 serde-indexed 0.1.1: key = position + offset; emitted in declaration order; a member is skipped iff its skip_serializing_if predicate holds; decoding requires exactly the members without skip_serializing_if; duplicate or unknown index is an error — CHECKED on every run against the actual macro expansion of this crate (Engine X obligations `expansion__*`, lib/expand_engine.py); what remains assumed is the serde runtime protocol (SerializeMap / MapAccess) that the generated code drives',
+    'A2': 'A2 serde_derive 1.0: text-keyed fields in declaration order under their renamed keys; default / missing_field; unknown keys go to deserialize_ignored_any unless deny_unknown_fields; serde_repr maps discriminants both ways and rejects other numbers — for structs CHECKED against the actual macro expansion (Engine X); for the serde_repr enums assumed',
+    'A3': 'A3 derived Serialize impls always announce definite lengths — CHECKED on the macro expansion (Some(len) with one term per member, Engine X)',
     'A4': 'A4 heapless 0.7 / heapless-bytes 0.3 / serde_bytes Deserialize impls accept <= N, reject > N and copy verbatim (assumed)',
     'A5': 'A5 #[cfg] on a field is evaluated before any derive macro sees the field list (rustc)',
     'A6': 'A6 cbor-smol ser.rs emits shortest-form heads and each serde call appends exactly its item (checked for scalars by Kani harnesses; otherwise assumed)',
